@@ -199,7 +199,7 @@ Qed.
 
 (* ------------------------------------------------------------------ token level: run_spec on run_model *)
 Definition wf_case (c : case) : Prop :=
-  match c with CRt _ x => wf_ctx x | CRtD _ x _ n => wf_ctx x /\ n <= 9 | _ => True end.
+  match c with CRt _ x => wf_ctx x | CRtD _ x _ n => wf_ctx x /\ n <= 9 | CPinj _ cs => Forall wf_ctx cs | _ => True end.
 
 Definition same_flag (o : option span_ctx) : bool := match o with None => true | Some _ => false end.
 
@@ -227,11 +227,23 @@ Proof.
   rewrite parse_ext_print. reflexivity.
 Qed.
 
-Lemma model_meets_spec_case : forall c, wf_case c ->
+Lemma parse_ctx_wf : forall l c, parse_ctx l = Some c -> wf_ctx c.
+Proof.
+  intros l c H. unfold parse_ctx in H.
+  destruct l as [|[tid| |] [|[sid| |] [|[|f|] [|[|r|] [|[tsh| |] [|]]]]]]; try discriminate H.
+  destruct (Nat.eqb (length tid) 16) eqn:L1; [|discriminate H].
+  destruct (Nat.eqb (length sid) 8) eqn:L2; [|discriminate H].
+  cbn [andb] in H. destruct ((0 <=? f)%Z && (f <? 256)%Z); [|discriminate H].
+  injection H as H. subst c. apply Nat.eqb_eq in L1. apply Nat.eqb_eq in L2. split; assumption.
+Qed.
+
+Definition is_pinj (c : case) : bool := match c with CPinj _ _ => true | _ => false end.
+
+Lemma model_meets_spec_case : forall c, wf_case c -> is_pinj c = false ->
   exists o intact, (forall rest, parse_obs (model_case c ++ rest) = Some (option_map obs_of o, same_flag o, intact))
                    /\ spec_case c (option_map obs_of o) true intact = [].
 Proof.
-  intros [k x|b3 xt xs xf|h|x cx d n] W; cbn [model_case spec_case].
+  intros [k x|b3 xt xs xf|h|x cx d n|k cs] W NP; [| | | |discriminate NP]; cbn [model_case spec_case].
   - exists (roundtrip k x), 0%Z. split; [|apply model_meets_spec_roundtrip_lemma; exact W].
     intro rest. rewrite <- app_assoc. apply parse_obs_print.
   - exists (b3_extract b3 xt xs xf), 0%Z. split; [intro; apply parse_obs_print|apply model_meets_spec_b3_lemma].
@@ -243,19 +255,42 @@ Proof.
     intro rest. unfold model_rtd. cbn [app]. rewrite <- app_assoc. apply parse_obs_print_k.
 Qed.
 
-Lemma spec_case_same : forall c x s i, spec_case c (Some x) s i = spec_case c (Some x) true i.
+(* concurrent Inject: the sequential model (every thread on its own carrier) meets the per-thread clause *)
+Definition ext_obs (o : option span_ctx) : option xobs * bool := (option_map obs_of o, same_flag o).
+
+Lemma parse_exts_print : forall os rest, parse_exts (length os) (print_exts os ++ rest) = Some (map ext_obs os).
 Proof.
-  intros [k cx|b3 xt xs xf|h|xk cx d n] x s i; reflexivity.
+  induction os as [|o os IH]; intro rest; [reflexivity|].
+  cbn [length parse_exts print_exts]. rewrite <- app_assoc, parse_ext_print.
+  assert (K : skipn (match option_map obs_of o with Some _ => 6 | None => 2 end) (print_ext o ++ print_exts os ++ rest)
+              = print_exts os ++ rest) by (destruct o; reflexivity).
+  rewrite K, IH. reflexivity.
 Qed.
 
-Lemma parse_ctx_wf : forall l c, parse_ctx l = Some c -> wf_ctx c.
+Lemma spec_pinj_model : forall k cs, Forall wf_ctx cs -> spec_pinj k cs (map ext_obs (map (roundtrip k) cs)) = [].
 Proof.
-  intros l c H. unfold parse_ctx in H.
-  destruct l as [|[tid| |] [|[sid| |] [|[|f|] [|[|r|] [|[tsh| |] [|]]]]]]; try discriminate H.
-  destruct (Nat.eqb (length tid) 16) eqn:L1; [|discriminate H].
-  destruct (Nat.eqb (length sid) 8) eqn:L2; [|discriminate H].
-  cbn [andb] in H. destruct ((0 <=? f)%Z && (f <? 256)%Z); [|discriminate H].
-  injection H as H. subst c. apply Nat.eqb_eq in L1. apply Nat.eqb_eq in L2. split; assumption.
+  intros k cs F. induction F as [|c cs W F IH]; [reflexivity|].
+  cbn [map spec_pinj ext_obs]. rewrite IH, app_nil_r.
+  destruct (ctx_valid c) eqn:V.
+  - destruct (roundtrip_all k c W V) as [c' [E A]]. rewrite E. cbn [option_map].
+    apply spec_roundtrip_nm_agrees; assumption.
+  - rewrite (roundtrip_invalid k c V). unfold spec_roundtrip_nm. rewrite V. reflexivity.
+Qed.
+
+Lemma parse_ctxs_wf : forall secs cs, parse_ctxs secs = Some cs -> Forall wf_ctx cs.
+Proof.
+  induction secs as [|sec r IH]; intros cs H; cbn [parse_ctxs] in H.
+  - injection H as H. subst cs. constructor.
+  - destruct sec as [|t sec']; [discriminate H|].
+    destruct (is_tag "s" t); [injection H as H; subst cs; constructor|].
+    destruct (parse_ctx (t :: sec')) as [c|] eqn:E; [|discriminate H].
+    destruct (parse_ctxs r) as [cs'|]; [|discriminate H].
+    injection H as H. subst cs. constructor; [exact (parse_ctx_wf _ _ E)|exact (IH cs' eq_refl)].
+Qed.
+
+Lemma spec_case_same : forall c x s i, spec_case c (Some x) s i = spec_case c (Some x) true i.
+Proof.
+  intros [k cx|b3 xt xs xf|h|xk cx d n|k cs] x s i; reflexivity.
 Qed.
 
 Lemma parse_nkeys_le : forall z n, parse_nkeys z = Some n -> n <= 9.
@@ -288,6 +323,11 @@ Qed.
 Lemma parse_case_wf : forall l c, parse_case l = Some c -> wf_case c.
 Proof.
   intros l c H. unfold parse_case in H. destruct l as [|t [|kt rest]]; try discriminate H.
+  destruct (is_tag "PINJ" t).
+  { unfold parse_pinj in H. destruct (parse_kind kt); [|discriminate H].
+    destruct (split_toks "|" rest) as [|[|x0 s0] secs]; try discriminate H.
+    destruct (parse_ctxs secs) as [[|c0 cs0]|] eqn:E; try discriminate H.
+    injection H as H. subst c. exact (parse_ctxs_wf secs _ E). }
   destruct (is_tag "RTD" t); [exact (parse_rtd_wf kt rest c H)|].
   destruct (is_tag "RT" t).
   - destruct (parse_kind kt); [|discriminate H].
@@ -307,14 +347,21 @@ Qed.
 Lemma model_meets_spec_lemma : forall l, parse_case l <> None -> run_spec l (run_model l) = [].
 Proof.
   intros l H. unfold run_spec, run_model. destruct (parse_case l) as [c|] eqn:E; [|contradiction].
-  destruct (model_meets_spec_case c (parse_case_wf l c E)) as [o [i [P S]]].
-  specialize (P []). rewrite app_nil_r in P. rewrite P.
-  destruct o as [x|]; cbn [option_map same_flag] in *; [rewrite spec_case_same|]; exact S.
+  pose proof (parse_case_wf l c E) as W.
+  destruct (is_pinj c) eqn:NP.
+  - destruct c as [k0 x0|a0 b0 c0 d0|h0|x0 c0 d0 n0|k cs]; try discriminate NP. cbn [model_case wf_case] in *.
+    rewrite <- (map_length (roundtrip k) cs), parse_exts_print. apply spec_pinj_model. exact W.
+  - destruct (model_meets_spec_case c W NP) as [o [i [P S]]].
+    specialize (P []). rewrite app_nil_r in P.
+    destruct c as [k0 x0|a0 b0 c0 d0|h0|x0 c0 d0 n0|k cs]; try discriminate NP; rewrite P;
+      (destruct o as [x|]; cbn [option_map same_flag] in *; [rewrite spec_case_same|]; exact S).
 Qed.
 
 Example model_meets_spec_nonvacuous :
   parse_case [tag "RT"; tag "M"; TB ex_tid; TB ex_sid; TZ 255; TZ 0; TB []] <> None /\
   parse_case [tag "RTD"; tag "C"; TB ex_tid; TB ex_sid; TZ 1; TZ 0; TB []; tag "SPAN"; TB ex_tid; TB ex_sid; TZ 1; TZ 0; TB []; TZ 2] <> None /\
+  parse_case [tag "PINJ"; tag "S"; tag "|"; TB ex_tid; TB ex_sid; TZ 1; TZ 0; TB []; tag "|"; TB ex_tid; TB ex_sid; TZ 0; TZ 0; TB [];
+              tag "|"; tag "s"; TZ 0; TZ 0; TZ 1; TZ 0] <> None /\
   parse_case [tag "EXT"; tag "B"; TB (bs "80f198ee56343ba8-e457b5a2e4d86bd1-d"); tag "NONE"; tag "NONE"; tag "NONE"] <> None /\
   doc_b3 (bs "80f198ee56343ba8-e457b5a2e4d86bd1-d") [] [] [] <> None /\
   doc_jaeger (bs "4bf92f3577b34da6:e457b5a2e4d86bd1:0:3") <> None.
